@@ -257,6 +257,13 @@ class CliRules:
             if 'external call' in what and any(x in what for x in ('srand', 'time', 'rand')):
                 continue
             rec.broke('unmodelled construct in option parser: %s at %s' % (what, wh))
+        # ---- R15.f no field of a freshly allocated parameter pack is read before it is written (it would hold whatever the heap held:
+        #      in a long-lived process, the previous command line's values)
+        ur = sorted({(str(l[1][-1]) if l and l[1] else '?', w) for l, w in I.uninit_reads})
+        for fld, w in ur:
+            rec.ob('R15.f', 'R15.f@%s::read-before-write::%s' % (fkey(f), fld), False, w, 'field %s of the freshly allocated parameter pack is read before anything was stored in it' % fld)
+        rec.ob('R15.f', 'R15.f@%s::pack-fields-written-before-read' % fkey(f), not ur, where,
+               'every scalar read in the parser sees a value stored since the allocation: %s' % ('yes' if not ur else 'NO'))
         # ---- R17.a required fields per mode at every successful return
         need = {ord('e'): ('out', 'key'), ord('d'): ('out', 'key'), ord('v'): ('key',), ord('E'): ('out', 'key'), ord('D'): ('out', 'key')}
         nret = 0
